@@ -276,22 +276,10 @@ func (d *Decoder) readObjectDef() (interface{}, error) {
 	//add to slice
 	d.clsDefList = append(d.clsDefList, clsD)
 
-	tag, err := d.readTag()
-	if err != nil {
-		return nil, tagReadError(err)
-	}
-
-	if objectLenTag(tag) {
-		return d.ReadLenTagObject(tag)
-	}
-
-	if tag == _objectTag {
-		return d.readTagObject()
-	}
-	return nil, newCodecError("readObjectDef", "unknown tag after class def: 0x%x", tag)
+	// value ::= class-def value: the definition may be followed by any value (its first instance, another
+	// definition, a list or map that uses it later), not only by an instance
+	return d.ReadData()
 }
-
-// var readObjectIndex = 0
 
 func (d *Decoder) readObject(typ reflect.Type, cls ClassDef) (interface{}, error) {
 	if typ.Kind() != reflect.Struct {
